@@ -98,6 +98,8 @@ func suiteResource(r *Rng, n int, thorough bool, o *Out) {
 		o.emit(lst("res", "new", sxType(typ)), obs(), verdict())
 		fields := fieldsIndep(typ)
 		lastKey := ""
+		var keptS, keptW jsonapi.Resource
+		keptSnapS, keptSnapW := "", ""
 		for h := r.IntN(8); h > 0 && len(fields) > 0; h-- {
 			var k string
 			var v any
@@ -167,11 +169,26 @@ func suiteResource(r *Rng, n int, thorough bool, o *Out) {
 				}
 				guard(func() { scribble(soft.Copy()) })
 				guard(func() { scribble(wr.Copy()) })
+				// ... and a copy of each is KEPT: whatever is set on the originals from now on,
+				// the kept copies read what they read when they were taken
+				if keptS == nil {
+					guard(func() { keptS, keptW = soft.Copy(), wr.Copy() })
+					if keptS != nil && keptW != nil {
+						keptSnapS, keptSnapW = sxResView(keptS), sxResView(keptW)
+					}
+				}
 				o.stat("set.then-copy-marshaled")
 			}
 			pv := verdict()
 			if ps || pw {
 				pv = "FAIL:Set panicked"
+			}
+			if pv == "ok" && keptS != nil && keptW != nil {
+				if sxResView(keptS) != keptSnapS {
+					pv = "FAIL:a Set on a soft resource changed what is read from a copy taken before it"
+				} else if sxResView(keptW) != keptSnapW {
+					pv = "FAIL:a Set on a wrapped struct changed what is read from a copy taken before it"
+				}
 			}
 			o.emit(op, obs(), pv)
 		}
